@@ -523,6 +523,9 @@ var c05TCP = []string{"ESTABLISHED", "TIME_WAIT", "SYN_SENT", "CLOSE"}
 
 // c05Counter: a counter increment of the given shape (0 small, 1 32-bit range, 2 near 2^64)
 func c05Inc(rng *Rng, shape int) uint64 {
+	if rng.Intn(6) == 0 {
+		return 0 // a record that reports no growth at all
+	}
 	switch shape {
 	case 0:
 		return uint64(rng.Intn(2000))
@@ -704,15 +707,20 @@ func c05Coerce(kind, v string) string {
 }
 
 func c05NewKey(rng *Rng, i int, v6 bool) *c05GKey {
-	k := &c05GKey{v6: v6, proto: []uint8{6, 17, 132}[rng.Intn(3)], sport: uint16(1000 + i), dport: uint16(80 + rng.Intn(2)), shape: rng.Intn(3)}
+	// protocols without ports (ICMP 1, ICMPv6 58) included: the 5-tuple still has five fields
+	k := &c05GKey{v6: v6, proto: []uint8{6, 17, 132, 1, 58, 1, 58}[rng.Intn(7)], sport: uint16(1000 + i), dport: uint16(80 + rng.Intn(2)), shape: rng.Intn(3)}
+	ai := i
+	if rng.Intn(3) == 0 {
+		ai = 0 // same addresses as the first key: the flows differ in ports (and maybe protocol) only
+	}
 	if v6 {
-		k.src = fmt.Sprintf("200100000000000000000000000000%02x", 1+i)
+		k.src = fmt.Sprintf("200100000000000000000000000000%02x", 1+ai)
 		k.dst = "20010000000000000000000000000099"
 		if rng.Intn(6) == 0 { // IPv4-mapped address in an IPv6 element
-			k.src = fmt.Sprintf("00000000000000000000ffff0a0000%02x", 1+i)
+			k.src = fmt.Sprintf("00000000000000000000ffff0a0000%02x", 1+ai)
 		}
 	} else {
-		k.src = fmt.Sprintf("0a0000%02x", 1+i)
+		k.src = fmt.Sprintf("0a0000%02x", 1+ai)
 		k.dst = "0a000063"
 	}
 	k.flowType = []uint8{2, 2, 2, 1, 3, 4, 0}[rng.Intn(7)]
